@@ -89,4 +89,29 @@ theorem gen_branch_table :
         == some (brName (cmpFor c t).1 (cmpFor c t).2)) = true := by
   decide +kernel
 
+/-- the expression type c2mir gives to a bit-field member of declared type `b` and width `w`
+(check(), N_FIELD / N_DEREF_FIELD; the width tests and the replacement type are regenerated from
+the source), as a basic type -/
+def bfExprTy (b : IType) (w : Nat) : CTy :=
+  if bf_narrow_p (w : Int) b.toCTy then ⟨TM_BASIC, bf_narrow_bt (w : Int) b.toCTy, 0⟩ else b.toCTy
+
+/-- C11 6.3.1.1p2 for bit-fields of type int / unsigned int: after the integer promotions the
+operand is an `int` if int can represent all values of the bit-field, else an `unsigned int` -/
+def cBfPromote (b : IType) (w : Nat) : IType := if b.signed ∨ w ≤ 31 then .int else .uint
+
+theorem gen_bf_promotion_std :
+    ([IType.int, IType.uint].all fun b => (List.range 32).all fun k =>
+      ofCTy (integer_promotion (bfExprTy b (k + 1))) == some (cBfPromote b (k + 1))) = true := by
+  decide +kernel
+
+/-- declared types wider than int (an extension): narrower than int -> int, wider than int -> the
+declared type; at exactly 32 bits either the declared type or the value-range rule (gcc) -/
+theorem gen_bf_promotion_wide :
+    ([IType.long, IType.ulong, IType.llong, IType.ullong].all fun b => (List.range 64).all fun k =>
+      let r := ofCTy (integer_promotion (bfExprTy b (k + 1)))
+      if k + 1 ≤ 31 then r == some .int
+      else if k + 1 = 32 then r == some b || r == some (cBfPromote b 32)
+      else r == some b) = true := by
+  decide +kernel
+
 end MirVerif.CArith
